@@ -437,6 +437,13 @@ func (h *FBDNSDB) acquireReader() (db.Reader, uint64, error) {
 	verifhook.YieldRLock("acquire.rlock", &h.reloadMu)
 	h.reloadMu.RLock()
 	defer h.reloadMu.RUnlock()
+	select {
+	case <-h.done:
+		// the DB has been closed (the tickers of the server outlive Shutdown): its
+		// backend must not be touched any more
+		return nil, 0, fmt.Errorf("DB is closed")
+	default:
+	}
 	reader, err := db.NewReader(h.dnsdb)
 	return reader, h.cacheGen, err
 }
